@@ -14,7 +14,10 @@ use std::panic::{AssertUnwindSafe, catch_unwind};
 fn short(name: &str) -> &str { name.rsplit('.').next().unwrap_or(name) }
 
 /// Returns the number of functions whose model LIR equals the real LIR.
-pub fn compare_lir(rep: &mut Report, drv: &mut Driver, src: &str, ident: &Value) -> u64 {
+/// With `run` (argument type name, argument tuples, the spec's answers): the semantics of
+/// `Props/C01Lir` — `mRun` on the real MIR of the program, `lRun` on the LIR the model makes of it —
+/// must give the spec's value on every tuple where the spec yields one.
+pub fn compare_lir(rep: &mut Report, drv: &mut Driver, src: &str, ident: &Value, run: Option<(&str, &[Vec<u64>], &[String])>) -> u64 {
     let rt: &'static roto::Runtime<roto::NoCtx> = Box::leak(Box::new(roto::Runtime::new()));
     let pairs = match catch_unwind(AssertUnwindSafe(|| roto::verif_hooks::c01::stage_pairs(FileTree::test_file("c01.roto", src, 0), rt))) {
         Ok(Ok(p)) => p,
@@ -38,6 +41,33 @@ pub fn compare_lir(rep: &mut Report, drv: &mut Driver, src: &str, ident: &Value)
             for i in ins { text.push_str(i); text.push('\n'); }
         }
         text.push_str("end\n");
+    }
+    if let Some((ty, args, spec)) = run {
+        let tuples: Vec<String> = args.iter().map(|t| t.iter().map(|b| format!("{ty}:{b}")).collect::<Vec<_>>().join(" ")).collect();
+        let ans = drv.ask(&format!("c01 lirrun {} {}", hex(&text), tuples.join(" | ")));
+        let parts: Vec<&str> = ans.split(" | ").collect();
+        if parts.len() == args.len() {
+            for ((a, s), m) in args.iter().zip(spec).zip(&parts) {
+                let w: Vec<&str> = s.split(' ').collect();
+                if w.len() != 3 || w[0] != "ok" { continue; }
+                let want = format!("ok_{}_{}", w[1], w[2]);
+                let got: Vec<&str> = m.split(' ').collect();
+                let ok = got.len() == 2 && got[0] == format!("m={want}") && got[1] == format!("l={want}");
+                rep.evaluations += 1;
+                if ok {
+                    rep.hist("lir-semantics-on-real-mir", "mRun = lRun = spec value");
+                } else {
+                    rep.mismatch(
+                        "LIR layer: the MIR / LIR semantics of Props/C01Lir, run on the real MIR of the program (and on the LIR the model makes of it), do not give the value of the Lean Spec",
+                        json!({"case": ident, "args": a, "spec": s, "stages": m}),
+                    );
+                    rep.hist("lir-semantics-on-real-mir", "DIFFERENT");
+                    break;
+                }
+            }
+        } else if ans.trim() != "outside" {
+            rep.mismatch("answer of `c01 lirrun` not understood", json!({"case": ident, "answer": ans.chars().take(300).collect::<String>()}));
+        }
     }
     let ans = drv.ask(&format!("c01 lir {}", hex(&text)));
     let per_fn: Vec<&str> = ans.split(" || ").collect();
